@@ -137,6 +137,20 @@ def cases(ctx, model_ok, tmp):
             if (t.name, k, rn) in used:
                 continue
             used.add((t.name, k, rn))
+            if t is ta and rng.random() < 0.25:
+                # a dataset the source does not own: ingested in place from a file outside its root (absolute URI in its records)
+                from lsst.daf.butler import DatasetRef, FileDataset
+
+                extdir = os.path.join(tmp, f"ext{sidx}")
+                os.makedirs(extdir, exist_ok=True)
+                fpath = os.path.join(extdir, f"direct{len(refs)}.yaml")
+                with open(fpath, "w") as fh:
+                    fh.write(f"k: {k}\nn: {len(refs)}\nrun: {rn}\nt: {t.name}\ndirect: true\n")
+                rf = DatasetRef(t, src.registry.expandDataId(instrument="I", detector=k), run=rn)  # (saveDatasets wants expanded data IDs)
+                src.ingest(FileDataset(path=fpath, refs=[rf]), transfer="direct")
+                refs.append(rf)
+                ctx.count("source:direct-ingested")
+                continue
             refs.append(src.put({"t": t.name, "k": k, "run": rn, "n": len(refs)}, t, instrument="I", detector=k, run=rn))
         tagged_slots = set()
         for rf in refs:
@@ -195,7 +209,9 @@ def cases(ctx, model_ok, tmp):
                     use = sel_
                     if with_records:
                         # refs as a quantum or get_dataset(datastore_records=True) hands them out: with datastore records attached
-                        use = [src.get_dataset(rf.id, datastore_records=True) for rf in sel_]
+                        # (with dimension records too: a dataset the source ingested in place gets its target path from the file
+                        #  template, which needs them — an unexpanded ref is refused with "No metadata records attached")
+                        use = [src.get_dataset(rf.id, datastore_records=True, dimension_records=True) for rf in sel_]
                     dst.transfer_from(src, use, transfer=mode, register_dataset_types=True, transfer_dimensions=True)
 
             # ------------------------------------------------ prepare the target
@@ -338,6 +354,16 @@ def cases(ctx, model_ok, tmp):
                     for x in src_state["calibs"]:
                         if x[1] in ids and x[0][0] in sel_colls and x not in st1["calibs"]:
                             problems.append(f"validity range {x[0][2]} {x[2]}..{x[3]} of {x[1][:6]} missing in the target")
+                # every transferred or imported artifact lives below the target's own root (all modes used here take a copy or a link)
+                troot = os.path.realpath(os.path.join(tmp, f"dst{case_no}"))
+                for rf in sel:
+                    try:
+                        loc = dst.getURI(rf).ospath
+                    except Exception as e:
+                        problems.append(f"dataset {rf.id.hex[:6]} has no URI in the target: {type(e).__name__}")
+                        continue
+                    if not os.path.abspath(loc).startswith(os.path.abspath(os.path.join(tmp, f"dst{case_no}")) + os.sep):
+                        problems.append(f"dataset {rf.id.hex[:6]} is recorded in the target at {loc}, outside the target's root {troot}")
                 for u in ids:
                     k = ("detector", "I", dict(src_state["ds"][u][1])["detector"])
                     if st1["dims"].get(k) != src_state["dims"][k]:
@@ -357,7 +383,9 @@ def cases(ctx, model_ok, tmp):
                     key = f"c19:{how}:{kind}:{attempt}"
                     if all("dimension record" in p for p in problems) and kind == "conflict-dim":
                         key = "import-keeps-conflicting-dimension-record"
-                    elif all("redefined" in p or p.startswith("chain ch is") for p in problems) and kind == "conflict-chain":
+                    elif all("redefined" in p for p in problems) and kind == "conflict-chain":
+                        # the recorded witness is the *redefinition* of the target's chain; a chain that silently keeps other children
+                        # than the exported ones is a different failure and is reported under its own key
                         key = "import-redefines-existing-chain"
                     viol(f"{how}({mode}) #{attempt} of {len(sel)} datasets + {sel_colls} into a target of kind {kind}: " + "; ".join(problems[:3]), key,
                          {"kind": "c19", **desc, "attempt": attempt, "problems": problems[:6]})
@@ -368,6 +396,7 @@ def cases(ctx, model_ok, tmp):
             shutil.rmtree(os.path.join(tmp, f"dst{case_no}"), ignore_errors=True)
             for tag in ("x", "pre"):
                 shutil.rmtree(exdir + tag, ignore_errors=True)
+    quantum_sources(ctx, tmp, fresh_target, viol)
     if model_ok:
         got = core.driver(req)
         nd = 0
@@ -378,6 +407,92 @@ def cases(ctx, model_ok, tmp):
                     ctx.broken.append(f"correspondence: `{line[:120]}` model={m[:300]} implementation={i[:300]}")
         ctx.extra["correspondence_lines"] = len(req)
         ctx.extra["correspondence_disagreements"] = nd
+
+
+def quantum_sources(ctx, tmp, fresh_target, viol):
+    """Registry-less (quantum-backed) butlers as the source: the outputs of several quanta, each written through its own
+    QuantumBackedButler, brought into a full repository by collect_and_transfer and by transfer_from, once and repeatedly."""
+    from lsst.daf.butler import DatasetRef, DatasetType, MissingDatasetTypeError, Quantum, QuantumBackedButler, QuantumProvenanceData
+
+    rng = ctx.rng
+    for case in range(4 if ctx.quick() else 40):
+        home = fresh_target(f"qhome{case}")
+        root = os.path.join(tmp, f"qhome{case}")
+        home.registry.insertDimensionData("instrument", {"name": "I", "detector_max": 10, "class_name": "src.Cls"})
+        home.registry.insertDimensionData("detector", *[{"instrument": "I", "id": i, "full_name": f"src-d{i}"} for i in range(1, 7)])
+        types = [DatasetType(f"out{j}", {"instrument", "detector"}, "StructuredDataDict", universe=home.dimensions) for j in range(2)]
+        for t in types:
+            home.registry.registerDatasetType(t)
+        home.collections.register("run_out")
+        n_q = rng.randint(2, 4)
+        quanta, provenance, expected, qbbs = [], [], {}, []
+        for qi in range(n_q):
+            det = qi + 1
+            data_id = home.registry.expandDataId(instrument="I", detector=det)
+            outs = {t: [DatasetRef(t, data_id, run="run_out")] for t in types if rng.random() < 0.75} or {types[0]: [DatasetRef(types[0], data_id, run="run_out")]}
+            quantum = Quantum(taskName="verif.Task", dataId=data_id, inputs={}, outputs=outs)
+            qbb = QuantumBackedButler.initialize(config=root, quantum=quantum, dimensions=home.dimensions, dataset_types={t.name: t for t in types})
+            for t, (ref,) in outs.items():
+                payload = {"q": qi, "t": t.name, "det": det}
+                qbb.put(payload, ref)
+                expected[ref.id] = (ref, payload)
+            quanta.append(quantum), provenance.append(qbb.extract_provenance_data()), qbbs.append((qbb, [r_ for (r_,) in outs.values()]))
+
+        def audit(bt, label):
+            problems = []
+            got = {}
+            for t in types:
+                try:
+                    got.update({r_.id: r_ for r_ in bt.query_datasets(t.name, collections="run_out", explain=False)})
+                except MissingDatasetTypeError:
+                    pass  # no quantum produced this type: nothing registered it in the target
+            if set(got) != set(expected):
+                problems.append(f"the repository holds {len(got)} of the {len(expected)} outputs of the {n_q} quanta")
+            for did, (ref, payload) in expected.items():
+                f = got.get(did)
+                if f is None:
+                    continue
+                if f.dataId != ref.dataId or f.run != ref.run or f.datasetType != ref.datasetType:
+                    problems.append(f"output {did.hex[:6]} differs: {f} / {ref}")
+                elif not bt.stored(f):
+                    problems.append(f"output {ref.datasetType.name} of quantum {payload['q']} is registered but its file is not known to the datastore")
+                else:
+                    try:
+                        if bt.get(f) != payload:
+                            problems.append(f"output {did.hex[:6]} reads back differently")
+                    except Exception as e:
+                        problems.append(f"output {did.hex[:6]} unreadable: {type(e).__name__}")
+            ctx.evaluations += 1
+            ctx.count("quantum-backed:" + label.split(" ")[0])
+            if len(expected) >= 3:
+                ctx.nontrivial.add(("qbb", case, label))
+            if problems:
+                viol(f"{label} ({n_q} quanta, {len(expected)} outputs): " + "; ".join(problems[:3]), f"qbb:{label}:{n_q}:{len(expected)}",
+                     {"kind": "quantum-backed", "how": label, "quanta": n_q, "outputs": len(expected)})
+
+        # (a) into another repository with transfer_from, quantum by quantum, then once more (must change nothing)
+        other = fresh_target(f"qother{case}")
+        mode = rng.choice(["copy", "hardlink", "symlink"])
+        try:
+            for qbb, rr in qbbs:
+                other.transfer_from(qbb, rr, transfer=mode, register_dataset_types=True, transfer_dimensions=True)
+            audit(other, f"transfer_from({mode}) from quantum-backed butlers")
+            snap = observe(other)
+            for qbb, rr in qbbs[:2]:
+                other.transfer_from(qbb, rr, transfer=mode, register_dataset_types=True, transfer_dimensions=True)
+            if observe(other) != snap:
+                viol(f"repeating transfer_from({mode}) from quantum-backed butlers changed the target", f"qbb-repeat:{mode}", {"kind": "quantum-backed", "how": "repeat"})
+        except Exception as e:
+            viol(f"transfer_from({mode}) from a quantum-backed butler raised {type(e).__name__}: {str(e)[:100]}", f"qbb-raise:{mode}", {"kind": "quantum-backed", "how": mode})
+        # (b) into the repository the quanta ran against, all at once
+        try:
+            QuantumProvenanceData.collect_and_transfer(home, quanta, provenance)
+            audit(home, "collect_and_transfer of several quanta")
+        except Exception as e:
+            viol(f"collect_and_transfer of {n_q} quanta raised {type(e).__name__}: {str(e)[:100]}", "qbb-collect-raise", {"kind": "quantum-backed", "how": "collect"})
+        del home, other, qbbs
+        for nm in (f"qhome{case}", f"qother{case}"):
+            shutil.rmtree(os.path.join(tmp, nm), ignore_errors=True)
 
 
 def replay(ctx, content):
